@@ -84,7 +84,8 @@ def rule_cap(ctx) -> None:
                           f"{capname} = min(agent.caps.ops, slice_caps.t3_ops)", f"{capname} is not min(per-turn op cap, per-slice op cap)")
     fn = ctx.func(POLICY + ":deliberate")
     cfg = ctx.cfg(fn)
-    apps = [(n, c) for n in cfg.nodes for c in node_calls(n) if call_tail(c) == "append" and src(c.func.value) == "ops"]
+    ops_names = {src(kwarg(c, "ops")) for c in walk_no_defs(fn.node) if isinstance(c, ast.Call) and call_tail(c) == "Plan" and kwarg(c, "ops") is not None}
+    apps = [(n, c) for n in cfg.nodes for c in node_calls(n) if call_tail(c) == "append" and src(c.func.value) in ops_names]
     first = [n for n, c in apps if all(cfg.dominates(n, m) for m, _ in apps)]
     okf = bool(first) and any(isinstance(c.args[0], ast.Call) and call_tail(c.args[0]) == "SpeakOp" for n, c in apps if n in first)
     ctx.check(okf, "C13.CAP", f"{fn.qual}/speak-leads", fn.loc(), "the first (unconditional) append is the Speak op", "the plan is not led by an unconditionally appended Speak op")
@@ -95,14 +96,22 @@ def rule_rr(ctx) -> None:
     cfg = ctx.cfg(fn)
     rr = [(n, c) for n in cfg.nodes for c in node_calls(n) if call_tail(c) == "RequestRetrieveOp"]
     ctx.floor("C13.RR", "RequestRetrieveOp constructors", len(rr), 1)
+    rdf = ctx.rd(fn)
+    # roles: evidence = float(<sim_stats>.get("max")), thresholds = <thresholds>["tau_low" / "tau_high"], intent = SpeakOp(intent=...)
+    sm = [d for d in rdf.all_defs if d.kind == "assign" and d.value is not None and {"sim_stats", "max"} <= rdf.slice([d.value], d.node).constants() and any(const_str(z) == "max" for z in ast.walk(d.value))]
+    s_max = sm[0].name if sm else "s_max"
+    def _thr(key):
+        return next((d.name for d in rdf.all_defs if d.kind == "assign" and d.value is not None and isinstance(d.value, ast.Subscript) and const_str(d.value.slice) == key), key)
+    tau_low, tau_high = _thr("tau_low"), _thr("tau_high")
+    intent_names = {src(kwarg(c, "intent")) for c in walk_no_defs(fn.node) if isinstance(c, ast.Call) and call_tail(c) == "SpeakOp" and kwarg(c, "intent") is not None}
     for n, c in rr:
         facts = cfg.facts(n)
-        ok = ("s_max < tau_low", True) in facts or ("s_max >= tau_low", False) in facts
+        ok = (f"{s_max} < {tau_low}", True) in facts or (f"{s_max} >= {tau_low}", False) in facts
         ctx.check(ok, "C13.RR", f"{fn.qual}/request-only-below-low-threshold", fn.loc(c), "RequestRetrieve is constructed only under s_max < tau_low",
                   "RequestRetrieve can be emitted although the similarity evidence is not below the low threshold")
-    want = {"summary": [("s_max >= tau_high", True)], "question": [("s_max >= tau_high", False), ("s_max >= tau_low", False)]}
+    want = {"summary": [(f"{s_max} >= {tau_high}", True)], "question": [(f"{s_max} >= {tau_high}", False), (f"{s_max} >= {tau_low}", False)]}
     for n in cfg.nodes:
-        if n.kind == "stmt" and isinstance(n.ast, ast.Assign) and src(n.ast.targets[0]) == "intent":
+        if n.kind == "stmt" and isinstance(n.ast, ast.Assign) and src(n.ast.targets[0]) in intent_names:
             v = n.ast.value
             facts = cfg.facts(n)
             s = const_str(v)
@@ -110,10 +119,10 @@ def rule_rr(ctx) -> None:
                 ok = all(f in facts for f in want[s])
                 ctx.check(ok, "C13.RR", f"{fn.qual}/intent:{s}", fn.loc(n.ast), f"intent '{s}' under {want[s]}", f"intent '{s}' is assigned under {sorted(facts)} - not the documented threshold cascade")
             elif isinstance(v, ast.IfExp):
-                ok = ("s_max >= tau_high", False) in facts and ("s_max >= tau_low", True) in facts and {const_str(v.body), const_str(v.orelse)} == {"assertion", "ack"}
+                ok = (f"{s_max} >= {tau_high}", False) in facts and (f"{s_max} >= {tau_low}", True) in facts and {const_str(v.body), const_str(v.orelse)} == {"assertion", "ack"}
                 ctx.check(ok, "C13.RR", f"{fn.qual}/intent:mid", fn.loc(n.ast), "assertion/ack between the two thresholds", "the middle intent is not assigned between tau_low and tau_high")
-    sm = [d for d in ctx.rd(fn).all_defs if d.name == "s_max" and d.value is not None]
-    ctx.check(bool(sm) and all("sim_stats" in src(d.value) and "max" in src(d.value) for d in sm), "C13.RR", f"{fn.qual}/evidence-source", fn.loc(),
+    used = any(isinstance(y, ast.Name) and y.id == s_max for n, c in rr for t, p in cfg.facts(n) for y in ast.walk(ast.parse(t, mode="eval")))
+    ctx.check(bool(sm) and used, "C13.RR", f"{fn.qual}/evidence-source", fn.loc(),
               "s_max is the retrieval similarity maximum from the bundle", "s_max is not read from t2.metrics.sim_stats.max")
 
 
@@ -138,7 +147,8 @@ def rule_once(ctx) -> None:
               "rag_once calls retrieve_fn at one site outside any loop", f"rag_once calls retrieve_fn at {len(rs)} sites / inside a loop")
     if rs:
         facts = rcfg.facts(rs[0][0])
-        ok = ("already_used", False) in facts and (("rr is None", False) in facts or ("rr is not None", True) in facts)
+        rrn = {d.name for d in ctx.rd(ro).all_defs if d.kind == "assign" and d.value is not None and isinstance(d.value, ast.Call) and call_tail(d.value) == "_first_request_retrieve_payload"}
+        ok = (ro.params[3], False) in facts and any((f"{x} is None", False) in facts or (f"{x} is not None", True) in facts for x in rrn)
         ctx.check(ok, "C13.ONCE", f"{ro.qual}/retrieve-guards", ro.loc(rs[0][1]), "retrieve_fn runs only when not already used and a RequestRetrieve op exists",
                   "retrieve_fn is reachable when already_used is true or without a RequestRetrieve op")
 
